@@ -8,8 +8,8 @@ ROOT = os.path.dirname(os.path.dirname(os.path.abspath(__file__)))
 CHECKS = {
     "C01": dict(
         cat="model_checking", ref="DESIGN.md §4 C01",
-        technique="TLA+ spec PushInstr/PushVM (every instruction + interpreter loop); TLC exhaustive over the single-instruction universe and over all small programs; spec->impl replay of every TLC case on the real PushState; impl->spec trace validation of random programs by TLC",
-        text="The instruction semantics of the property are an explicit TLA+ specification. TLC enumerates every instruction x every boundary state of its footprint (depth <= operands+1 over boundary alphabets incl. i64 extremes, NaN, infinities, signed zeros; destination full / one below full) and every program of <= 3/4 items over a control-flow alphabet; each case is executed on the real interpreter and must give an allowed outcome; random 60-gene programs over the full instruction set are run step by step and every step must be a Step of the specification.",
+        technique="TLA+ spec PushInstr/PushVM (every instruction + interpreter loop); TLC exhaustive over the single-instruction universe and over all small programs; spec->impl replay of every TLC case on the real PushState; impl->spec trace validation of random programs by TLC; end-to-end stages PushScore/PushGP/PushEvolution (genome -> program -> built state -> run -> error -> lexicase/UMAD generation) and Cases",
+        text="The instruction semantics of the property are an explicit TLA+ specification. TLC enumerates every instruction x every boundary state of its footprint (depth <= operands+1 over boundary alphabets incl. i64 extremes, NaN, infinities, signed zeros; destination full / one below full) and every program of <= 3/4 items over a control-flow alphabet; each case is executed on the real interpreter and must give an allowed outcome; random 60-gene programs over the full instruction set are run step by step and every step must be a Step of the specification. Further stages: run_to_completion as a function (RunFrom, proved equal to the actions by TLC: RunAgrees) scores whole genomes the way the push examples do - every genome of <= 3/4 genes is replayed through the real pipeline, random genomes and whole lexicase/UMAD generations (serial and parallel) are trace-validated against PushGP/PushEvolution; evaluation interrupted half way and resumed, and output read twice, must agree with the uninterrupted evaluation.",
         note="Numbers are compared inside the phi/psi windows only (cuts are counted in evidence). Float predicates follow the OrderedFloat total order. Error texts are not compared. Trusts TLC, the harness projections and the builder used to construct pre-states."),
     "C02": dict(
         cat="model_checking", ref="DESIGN.md §4 C02",
@@ -19,12 +19,12 @@ CHECKS = {
     "C03": dict(
         cat="model_checking", ref="DESIGN.md §4 C03",
         technique="TLA+ PushVM interpreter loop: TLC checks StepBound, SizeBound, FatalOnlyOverflow, the variant and liveness <>(halted) under weak fairness over all small programs x limits; replay of all behaviours; trace validation of random runs; long real runs (<=1e5 steps) validated against TraceBounds_PushVM with a hang watchdog",
-        text="Totality and boundedness are invariants and a liveness property of the interpreter model, checked by TLC for all programs of <= 3/4 items (incl. dup_block / exec.dup growth idioms) x stack limits x step limits; the real interpreter is replayed on all of them, trace-validated on random programs, and run for up to 1e5 steps on exponential, self-replicating, flat and extreme-arithmetic programs where sizes, abort cause, output-prefix monotonicity and (for flat programs) the exact step count are validated by TLC.",
+        text="Totality and boundedness are invariants and a liveness property of the interpreter model, checked by TLC for all programs of <= 3/4 items (incl. dup_block / exec.dup growth idioms) x stack limits x step limits; the real interpreter is replayed on all of them, trace-validated on random programs, and run for up to 1e5 steps on exponential, self-replicating, flat and extreme-arithmetic programs where sizes, abort cause, output-prefix monotonicity (for flat programs) the exact step count, (for printing programs up to 1.5 MB) the exact number of bytes printed and (for counted programs of millions of steps) completion exactly at the step limit the specification computes are validated by TLC.",
         note="Inputs mentioned by programs are bound. A panic or watchdog timeout is an observed outcome no action allows. Real schedules beyond 1e5 steps / stacks beyond 1e3 are not explored."),
     "C04": dict(
         cat="model_checking", ref="DESIGN.md §4 C04",
-        technique="TLA+ spec BoundedStack.tla; TLC exhaustive over the state/operation universe with the property's clauses as action properties; every emitted case replayed on the real Stack; random histories of the real Stack trace-validated by TLC",
-        text="TLC explores every stack content up to the configured depth x every capacity x every operation and checks all-or-nothing, LIFO order, payload and capacity clauses on the specification; each explored (state, operation) is executed on a real Stack<u8> and must produce an allowed outcome (exhaustive in that scope), and long random histories on one real object must be behaviours of the specification.",
+        technique="TLA+ spec BoundedStack.tla; TLC exhaustive over the state/operation universe with the property's clauses as action properties; every emitted case replayed on the real Stack; random histories of the real Stack trace-validated by TLC; TLAPS proofs (BoundedStackProofs.tla) of the per-step clauses for unbounded contents",
+        text="TLC explores every stack content up to the configured depth x every capacity x every operation and checks all-or-nothing, LIFO order, payload and capacity clauses on the specification; each explored (state, operation) is executed on a real Stack<u8> and must produce an allowed outcome (exhaustive in that scope), and long random histories on one real object must be behaviours of the specification. The per-step clauses (all-or-nothing, error kinds, inert observers, capacity) are also proved with tlapm for arbitrary contents and capacities (106 obligations); bulk insertions from iterators that announce up to usize::MAX items or never end are replayed too.",
         note="Trusts TLC, the Json module, and the harness projection (contents read by popping a clone). Element type u8. Scope: depth<=3/5, capacities 0..3/0..5, bulk<=2/3 exhaustively; random histories of 150/200 operations beyond that."),
     "C05": dict(
         cat="model_checking", ref="DESIGN.md §4 C05",
@@ -44,7 +44,7 @@ CHECKS = {
     "C11": dict(
         cat="model_checking", ref="DESIGN.md §4 C11",
         technique="TLA+ spec Variation.tla (flip masks and UMAD keep/insert decisions as explicit choices); TLC exhaustive over genomes <= 4/6, rates {0,1/4,1/2,1,3/2}, three UMAD constructors, with FlipShape / UmadShape / degenerate-rate identities as invariants; random real mutations trace-validated, TLC infers the decision vector",
-        text="TLC enumerates every outcome the specification allows for every small genome, rate and UMAD configuration and checks the clauses of the property (same length, in place, survivors in order, at most one insertion per position, new genes from the generator, the four degenerate-rate identities, the empty-parent cases), and that the membership test used for trace validation accepts exactly those outcomes; random real calls of WithRate, WithOneOverLength (Vec<bool>, Bitstring) and Umad (Vector, Plushy; lengths 0..12) must each be explainable by some decision vector.",
+        text="TLC enumerates every outcome the specification allows for every small genome, rate and UMAD configuration and checks the clauses of the property (same length, in place, survivors in order, at most one insertion per position, new genes from the generator, the four degenerate-rate identities, the empty-parent cases), and that the membership test used for trace validation accepts exactly those outcomes; random real calls of WithRate, WithOneOverLength (Vec<bool>, Bitstring) and Umad (Vector, Plushy with close markers in the parent and from the generator; lengths 0..12) must each be explainable by some decision vector; bit flips of genomes of 255 .. 2^24+1 genes must succeed, keep the length and obey the degenerate-rate identities.",
         note="Genes are tagged so explanations are unique. Rates strictly inside (0,1) may produce any mask; measure-zero events are not claimed."),
     "C06": dict(
         cat="model_checking", ref="DESIGN.md §4 C06",
@@ -74,17 +74,17 @@ CHECKS = {
     "C14": dict(
         cat="model_checking", ref="DESIGN.md §4 C14",
         technique="TLA+ spec Compose.tla (big-step Eval threading stream position, call count and call log); TLC over every well-typed expression of depth <= 2 x input shape x failure position with LeftToRight / StopsAtFirstFailure / ErrorLocates invariants; every case replayed on the real combinators built through the Composable API; random deeper compositions trace-validated",
-        text="Evaluation order, data flow, randomness consumption and error location of then / and / map (pair, array, vector) / repeat / identity / constant and the Mutate / Recombine wrappers (by value and by reference) are an explicit evaluation function; TLC enumerates all small well-typed expressions with a failure injected at every component call and checks the clauses; each case is executed on the real combinators with component operators that log (id, input, stream position) under a counting RNG, comparing value, error path, call log and words consumed; random compositions of depth 5 (tens of calls) are checked by TLC against the same function. Select / GenomeExtractor / GenomeScorer are expressions of the specification too (scorer-call log, the genome maker's error passed through untouched), including pipeline-shaped compositions; error steps are read independently of the wording of error messages.",
+        text="Evaluation order, data flow, randomness consumption and error location of then / and / map (pair, array, vector) / repeat / identity / constant and the Mutate / Recombine wrappers (by value, by reference and around a boxed trait object) are an explicit evaluation function; TLC enumerates all small well-typed expressions with a failure injected at every component call and checks the clauses; each case is executed on the real combinators with component operators that log (id, input, stream position) under a counting RNG, comparing value, error path, call log and words consumed; random compositions of depth 5 (tens of calls) are checked by TLC against the same function. Select / GenomeExtractor / GenomeScorer are expressions of the specification too (scorer-call log, the genome maker's error passed through untouched), including pipeline-shaped compositions; error steps are read independently of the wording of error messages.",
         note="Combinator and error types are private to ec-core; the harness builds compositions with the public Composable methods and reads error variants from Debug/Display/source(). Select / GenomeExtractor / GenomeScorer wrappers are covered under C15-C17."),
     "C16": dict(
         cat="other", ref="DESIGN.md §4 C16",
         technique="TLA+ spec Functional.tla (an operator application is a function of configuration, arguments and generator state); differential trace validation: repeated, interleaved and cross-thread calls on one operator value from equal generator states, and Push runs from differently declared inputs, checked by TLC for 'one key, one value'",
-        text="The stateless-function contract that every other specification here assumes is stated explicitly; 30+ operators and generators of the three crates (selectors incl. weighted and dyn lists, Select/Mutate/Recombine pipelines, GenomeScorer, WithRate, WithOneOverLength, Umad, both crossovers in all forms, collection / bool / gene / Plushy / individual generators, OneOfCloning, ChooseCloning, Choose) are observed under SmallRng and StdRng behind a word-counting wrapper; TLC rejects any trace in which one (operator, arguments, generator state) has two different (result, words consumed, next word). Push programs are run from six differently ordered, separately built input maps.",
+        text="The stateless-function contract that every other specification here assumes is stated explicitly; 30+ operators and generators of the three crates (selectors incl. weighted and dyn lists, Select/Mutate/Recombine pipelines, GenomeScorer, WithRate, WithOneOverLength, Umad, both crossovers in all forms, collection / bool / gene / Plushy / individual generators, OneOfCloning, ChooseCloning, Choose) are observed under SmallRng and StdRng behind a word-counting wrapper; TLC rejects any trace in which one (operator, arguments, generator state) has two different (result, words consumed, next word). A weighted selector list assembled all at once or piece by piece with selections in between is one key too. Push programs are run from six differently ordered, separately built input maps (with decoy re-bindings), millions-of-steps counted runs must finish exactly at the computed limit.",
         note="The specification's own role is small (stated in DESIGN). Hidden state shows up with overwhelming probability, not certainty."),
     "C17": dict(
         cat="other", ref="DESIGN.md §4 C17",
         technique="TLA+ spec Functional.tla with wrapper-free keys; differential trace validation over all 7 pointer kinds x 4 auto-trait sets x 5 erased traits x several wrapped implementations; the flavour table is a separate cargo target so a missing generated impl is a reported violation",
-        text="For DynSelector, DynMutator, DynRecombinator, DynOperator and DynChildMaker, behind &, &mut, Box, Arc, Rc, Ref and RefMut, each with no / Send / Sync / Send+Sync bounds, the erased call must return the same individual / genome / value, the same error text, consume the same number of words and leave the generator in the same state as the concrete operator, for library operators, an always-failing one and one that consumes a data-dependent number of words. Exhaustive over flavours; seeds are sampled.",
+        text="For DynSelector, DynMutator, DynRecombinator, DynOperator and DynChildMaker, behind &, &mut, Box, Arc, Rc, Ref and RefMut, each with no / Send / Sync / Send+Sync bounds, the erased call must return the same individual / genome / value, the same error text, consume the same number of words and leave the generator in the same state as the concrete operator, for library operators, an always-failing one and one that consumes a data-dependent number of words; erased error types: the boxed default, a harness type with dedicated and catch-all conversions, and the repository's own wrapper errors (CrossoverGeneError, DynWeightedError) whose text and diagnostic must be the wrapped error's. Exhaustive over flavours; seeds are sampled.",
         note="Differential; results compared through Debug / Display renderings."),
     "C18": dict(
         cat="model_checking", ref="DESIGN.md §4 C18",
@@ -94,8 +94,8 @@ CHECKS = {
     "C15": dict(
         cat="model_checking", ref="DESIGN.md §4 C15",
         technique="TLA+ spec Ordering.tla: order laws checked by TLC on the small domain; one implementation test per spec case (every pair, cross pair, vector pair) evaluated on Score, Error, TestResult, TestResults, EcIndividual; construction clause trace-validated",
-        text="Reflexivity, antisymmetry, transitivity, totality, exact reversal for errors, operator-family coherence, cross-kind incomparability and 'vectors and individuals compare as their totals' are checked by TLC on values -2..2 / vectors <= 2/3; every case is evaluated with every comparison operator on the real types with values mapped onto {MIN,-1,0,1,MAX}; IndividualGenerator and GenomeScorer are traced with a recording genome maker and scorer.",
-        note="Vector sums use small values (overflow of iter().sum() is outside the property)."),
+        text="Reflexivity, antisymmetry, transitivity, totality, exact reversal for errors, operator-family coherence, cross-kind incomparability and 'vectors and individuals compare as their totals' are checked by TLC on values -2..2 / vectors <= 2/3; every case is evaluated with every comparison operator on the real types with values mapped onto {MIN,-1,0,1,MAX}; IndividualGenerator and GenomeScorer are traced with a recording genome maker and scorer; copies must compare equal to their sources; totals of 8-100 extreme values whose in-order running sum stays in range (and float vectors where the order of additions matters) must equal the in-order sum.",
+        note="A total whose IN-ORDER running sum overflows is outside the property."),
     "C19": dict(
         cat="model_checking", ref="DESIGN.md §4 C19",
         technique="TLA+ spec Builder.tla with the builder's type-state as explicit state (Legal = the type-level guard of each generated method, Apply = its run-time effect); TLC over all call sequences <= 5/6 with the property's clauses as invariants, and the type-state legality table under a VIEW; Rust programs GENERATED from TLC's sequences: well-typed ones compiled and run on PushState and on a second struct, ill-typed ones must be rejected by rustc",
